@@ -72,6 +72,8 @@ type Method struct {
 	method interface{}
 	// Parent module of this method
 	Module *Module
+	// set for methods made by newBoundMethod, which already carry their receiver
+	bound bool
 }
 
 // Internal method types implemented within eval.go
@@ -175,7 +177,8 @@ func (m *Method) CallWithKeywords(self Object, args Tuple, kwargs StringDict) (O
 // methods
 func newBoundMethod(name string, fn interface{}) (Object, error) {
 	m := &Method{
-		Name: name,
+		Name:  name,
+		bound: true,
 	}
 	switch f := fn.(type) {
 	case func(args Tuple) (Object, error):
@@ -235,6 +238,14 @@ func newBoundMethod(name string, fn interface{}) (Object, error) {
 // Call a method
 func (m *Method) M__call__(args Tuple, kwargs StringDict) (Object, error) {
 	self := Object(m.Module)
+	if m.Module == nil && !m.bound {
+		// A method of a type called through the type (e.g. str.upper("a")):
+		// the receiver is the first positional argument
+		if len(args) == 0 {
+			return nil, ExceptionNewf(TypeError, "descriptor '%s' needs an argument", m.Name)
+		}
+		self, args = args[0], args[1:]
+	}
 	if kwargs != nil {
 		return m.CallWithKeywords(self, args, kwargs)
 	}
